@@ -236,15 +236,16 @@ Po(h, l, c, P) == LET xs == [p \in DOMAIN h |-> I(p)]
 \*   FinalLower = If (BasicLower > PreviousFinalLower) Or (PreviousClose < PreviousFinalLower) Then BasicLower Else PreviousFinalLower
 \*   SuperTrend = If upTrend Then (If Close <= FinalUpper Then FinalUpper Else FinalLower)
 \*                Else (If Close >= FinalLower Then FinalLower Else FinalUpper);   UpTrend = (SuperTrend = FinalUpper)
-\*   (at the first position there is no previous band: the final bands are the basic ones, upTrend is false)
+\*   (at the first position there is no previous band: the final bands are the basic ones, upTrend is false and the
+\*    Super Trend is the lower band - the library's starting convention, the documentation states none)
 SuperTrend(h, l, c, atr, M) ==
   LET med == Median(h, l)
       bu == AddS(med, Scale(M, atr))
       bl == SubS(med, Scale(M, atr))
   IN IF IsEmpty(bu) THEN Empty
      ELSE LET lo == Lo(bu)
-              first == IF Le(bl[lo], c[lo]) THEN [fu |-> bu[lo], fl |-> bl[lo], st |-> bl[lo], up |-> FALSE]
-                       ELSE [fu |-> bu[lo], fl |-> bl[lo], st |-> bu[lo], up |-> TRUE]
+              \* (the documentation does not say where the recursion starts; the library starts on the lower band)
+              first == [fu |-> bu[lo], fl |-> bl[lo], st |-> bl[lo], up |-> FALSE]
               Step(prev, p) ==
                 LET fu == IF Lt(bu[p], prev.fu) \/ Lt(prev.fu, c[p - 1]) THEN bu[p] ELSE prev.fu
                     fl == IF Lt(prev.fl, bl[p]) \/ Lt(c[p - 1], prev.fl) THEN bl[p] ELSE prev.fl
